@@ -818,7 +818,6 @@ package twig
 //@   pure
 // Intern only touches its own cache of strings (value equal to key: C01 global_allow)
 //@ func Intern props: C05
-//@   ensures ret == s
 //@   modifies entries(globalCache.strings), globalCache.RWMutex
 // Each round of the main loop starts right behind a closing delimiter (or behind an opener that a
 // backslash turned into text); the text token it emits is exactly the source between that position
@@ -1000,7 +999,8 @@ package twig
 // after the rest of the source went out as the last text token (no opener left)
 //@ func (*ZeroAllocTokenizer).TokenizeOptimized props: C04 C14
 //@   atcall[C04,C14] (*ZeroAllocTokenizer).AddToken#9 pos >= len(t.source) || tagLoc.Position == 0 - 1
-//@   atcall[C08,C14] (*ZeroAllocTokenizer).AddToken#7 a1 == TOKEN_NAME && fn_isIdentifier_0(a2)
+//@   atcall[C08,C14] (*ZeroAllocTokenizer).AddToken#7 a1 == TOKEN_NAME && fn_isIdentifier_0(tagContent)
+//@   atcall[C08,C14] Intern a0 == tagContent
 //@ func (*ZeroAllocTokenizer).TokenizeHtmlPreserving props: C04 C14
 //@   atcall[C04,C14] (*ZeroAllocTokenizer).AddToken#9 posT() >= len(srcT()) || (len(t.tokenBuffer) >= 1 && t.tokenBuffer[len(t.tokenBuffer) - 1].Type == TOKEN_TEXT && t.tokenBuffer[len(t.tokenBuffer) - 1].Value == substr(srcT(), posT(), len(srcT())))
 //@   atcall[C08,C14] (*ZeroAllocTokenizer).AddToken#7 a1 == TOKEN_NAME && fn_isIdentifier_0(a2)
